@@ -560,6 +560,8 @@ def locsE : List (Seq → List Reg) := [fun _ => [rE, seg 2 7], fun _ => [seg 2 
 (`Gts/Props/C15.lean`; 0-based residues 10,9,8 | 6 | 3,2,1) and the region `rE`, which extract emits
 (first of the two de-duplicated regions) -/
 example : Cli.extractRegs locsE false s1 = [rE, seg 2 7] := by rfl
+/-- hypothesis of `extract_regs_within`: every located region inside the record -/
+example : within s1.len (many (locsE.flatMap fun l => l s1)) := by decide
 example : rE ∈ Cli.extractRegs locsE false s1 := by
   rw [show Cli.extractRegs locsE false s1 = [rE, seg 2 7] from rfl]; exact List.mem_cons_self ..
 example : within s1.len rE ∧ gene1.loc.wf = true ∧ Loc.coordsWithin gene1.loc s1.len = true ∧
